@@ -80,6 +80,8 @@ pub mod reader;
 pub mod request;
 pub mod util;
 pub mod value;
+#[cfg(all(ipp_verif, feature = "client"))]
+pub mod verif;
 
 pub mod prelude {
     //!
